@@ -2,10 +2,20 @@ import os
 from lib.core import Kani, Verus, Fn, VERUS_DIR
 from lib import vx
 from verus import c11_skip_targets as st
+from verus import c11_is_ancestor as ia
 
 PROPERTY = 'C11'
 LEVEL = 'proof'
-HARNESS_FILES = ['verus/c11_skip_targets.py']
+HARNESS_FILES = ['verus/c11_skip_targets.py', 'verus/c11_is_ancestor.py']
+
+
+def build_ia():
+    text, located, dropped, raws = ia.build()
+    d = os.path.join(VERUS_DIR, 'c11_is_ancestor')
+    os.makedirs(d, exist_ok=True)
+    vx.write_diff(raws, os.path.join(d, 'repo_vs_verified.diff'))
+    return text, located, dropped
+
 
 
 def build():
@@ -20,13 +30,21 @@ UNITS = [
     Verus('c11_skip_targets', build, min_verified=6,
           contract='skip_target_boundaries(n): never Err (no Bug reachable, no overflow); strictly ascending; every target in [1, n); empty iff n < 2; '
                    'first = n/2; each next target halves the remaining gap; the last gap is <= MIN_SKIP_GAP; terminates. All n in u64.'),
+    Verus('c11_is_ancestor', build_ia, min_verified=21,
+          contract='Storage::is_ancestor (the default search, extracted verbatim): for every well-formed stored graph of any size, terminates and returns true exactly when search is a proper ancestor of start; '
+                   'skip-list jumps never change the answer; no error / Bug exit; the debug_assert is proved'),
 ]
-TRUSTED = ['MaxCut is a u64 newtype (shim)']
-ASSUMPTIONS = ['search_queued / is_ancestor against graph reachability and the skip invariant (spine argument in DESIGN.md) are not machine-checked yet']
-EXPLANATION = 'Skip-list target computation proved for all n by Verus on the extracted function.'
+TRUSTED = ['MaxCut is a u64 newtype (shim)',
+           'graph well-formedness axioms (assumed contract of Storage / Segment, 8 admitted proof fns): max cut strictly grows along ancestry, transitivity, in-segment order, '
+           'cross-segment ancestry passes through the segment priors, skip entries are spine nodes (DESIGN §4 C11) — the last one is what LinearStorage::build_skip_list must establish and is NOT verified',
+           'TraversalQueue::{push, pop} contracts as proved in unit c21_traversal_queue, restated over the one-entry-per-segment view (restatement argued, not mechanically linked)']
+ASSUMPTIONS = ['search_queued / get_location(_from) (same loop shape as is_ancestor, by address) is not under contract',
+               'that the real LinearStorage satisfies the graph axioms — in particular the spine property of the skip lists it builds — is argued in DESIGN.md, not machine-checked']
+EXPLANATION = 'Ancestry search proved correct and terminating over an abstract well-formed graph; skip-list target computation proved for all n; both on extracted text.'
 MANIFEST = {
-    'text': 'Proof (mechanism): the skip-list boundary computation is verified for every segment length n in u64 (Verus, extracted text). '
-            'Exactness of lookup/ancestry over all graphs is a history-level statement; the supporting skip invariant is argued in DESIGN.md and not machine-checked.',
-    'note': 'Mechanism contract only (PROVED-LOCAL).',
-    'technique': 'Verus on the extracted skip_target_boundaries',
+    'text': 'Proof relative to stated graph axioms: the extracted Storage::is_ancestor terminates and answers exactly "proper ancestor" on every well-formed graph, with skip jumps '
+            'never changing the answer (Verus, unbounded, 21 obligations); the skip-list boundary computation is verified for every n. That LinearStorage builds skip lists with the '
+            'spine property, and lookup by address (search_queued), are not machine-checked.',
+    'note': 'PROVED-LOCAL: modular proof over assumed Storage/Segment graph axioms and the TraversalQueue contracts of C21.',
+    'technique': 'Verus on the extracted Storage::is_ancestor and skip_target_boundaries',
 }
